@@ -168,6 +168,7 @@ def run_config(cfg):
         m = ctx.model()
         viol.append(dict(kind='crash', nutt=nutt, npre=npre, comp=comp, npost=npost, what=res[0], detail=str(res[1:])[:300],
                          crash_at=m.eval(z3.Int('crash_at'), True).as_long(), hard=z3.is_true(m.eval(z3.Bool('hard_kill'), True)),
+                         seed=m.eval(z3.Int('seed'), True).as_long(),
                          **{'class': 'crash/%s/%s' % (res[0].split(':')[0], 'pre' if npre else 'nopre')}))
     return dict(obligations=ob, discharged=dis, violations=viol,
                 samples=[{'config': cfg['name'], 'crash_points': max_steps + 1, 'steps': 'load, save-begin, save-mid, save-end, printed, flush per utterance'}], twin=reached)
@@ -200,7 +201,7 @@ def replay(w):
         pre = [{'name': 'dither', 'coeff': 1.0}] if w['npre'] else []
 
         def args(out, man):
-            return [mp] + ([json.dumps(conf)] if w['comp'] else []) + [out, '--preprocess', json.dumps(pre), '--seed', '7', '--manifest', man]
+            return [mp] + ([json.dumps(conf)] if w['comp'] else []) + [out, '--preprocess', json.dumps(pre), '--seed', str(int(w.get('seed', 7))), '--manifest', man]
         ref = os.path.join(work, 'ref')
         command_line.signals_to_torch_feat_dir(args(ref, os.path.join(work, 'ref.manifest')))
         out, man = os.path.join(work, 'out'), os.path.join(work, 'manifest')
